@@ -6,13 +6,18 @@
   registers for BMI2/ADX) and its memory forms —  decode (assemble (render d)) = d: mandatory prefix,
   opcode map, VEX.L, W, vvvv and the inverted R/X/B bits are what the decoder needs to read the same
   operation, destination, sources, operand size and vector length.
-   * `Sweep.c04_sweep` — the whole family (≈ 330 000 instances) on the model, by evaluation.
+   * `Sweep.c04_sweep` — the whole family (≈ 330 000 instances) on the model, by evaluation;
+   * `vex_prefix_fields` — kernel-checked: for EVERY VEX slot value of the regenerated table, every REX state, vvvv and operand width, the
+                         prefix `assemble_VEX` emits (C5 or C4 form, its choice) reads back with the right R̄ X̄ B̄, vvvv, L, pp, map and W;
+   * `vecpair_fields`    — kernel-checked: REX.R/REX.B and ModRM name the two registers for every pair of mm / xmm / ymm registers.
   The reference decoder's VEX reading (C4/C5 forms, inverted bits, vvvv, L, pp, mmmmm) is itself compared
   with objdump on every encoding the implementation produces (check side).
 -/
 import AL.Properties.Sweep.C04
+import AL.Properties.C01
+import AL.Impl.Assembler
 namespace AL.Properties.C04
-open AL.Spec.X86
+open AL AL.Impl AL.Gen AL.Spec.X86
 
 def vexFields (bs : List Nat) : Option (Bool × Nat × Bool × Nat × Nat × Bool × Bool × Bool) :=
   (takeExt bs).map fun r => (r.1.r, r.1.vvvv, r.1.l, r.1.simd, r.1.map, r.1.x, r.1.b, r.1.w)
@@ -22,5 +27,55 @@ def vexFields (bs : List Nat) : Option (Bool × Nat × Bool × Nat × Nat × Boo
 theorem vex2_is_vex3 :
     ((List.range 256).all fun p =>
       vexFields [0xC5, p, 0x58] == vexFields [0xC4, (p / 128) * 128 + 0x61, p % 128, 0x58]) = true := by decide +kernel
+
+/-- every VEX slot value of the regenerated instruction table (the enum marker removed) -/
+def vexSlots : List Nat :=
+  (instrTable.flatMap fun r => (r.opcode.take r.size).filter fun s => (s &&& (2 ^ 32 - 256)) != 0 && (s &&& c_GET_EN) == c_VEX).map
+    (fun s => s &&& (2 ^ 32 - 1 - c_GET_EN)) |>.eraseDups
+
+/-- the REX values the operand encoders can leave in the record: none, or 0x40 with any of W R X B -/
+def rexVals : List Nat := 0 :: (List.range 16).map (· + 0x40)
+
+/-- a record with the given prefix state -/
+def vexRec (rex vvvv : Nat) (w0 : Bool) : Instr := { hex := { rex := rex, vvvv := vvvv, isW0 := w0 } }
+
+/-- what the slot value and the record say the prefix has to carry:
+    (R, vvvv, L, pp, map, X, B, W) — R/X/B from the REX bits the operand encoders computed, vvvv from the record, L, pp and the opcode map from
+    the slot (bit 3, bits 1-2, bits 9-13 of the table value), W from the slot, or from the operand width for the rows marked W0_W1 -/
+def vexWant (v rex vvvv : Nat) (w0 : Bool) : Bool × Nat × Bool × Nat × Nat × Bool × Bool × Bool :=
+  (rex &&& 4 != 0, vvvv, v &&& 8 != 0, (v >>> 1) &&& 3, (v >>> 9) &&& 31, rex &&& 2 != 0, rex &&& 1 != 0,
+   if (v &&& 257) == 257 then w0 else v &&& 256 != 0)
+
+/-- **the VEX prefix carries the right fields** (kernel evaluation): for EVERY VEX slot value of the regenerated table, every REX state
+    the operand encoders can leave (none, or any of W R X B), every vvvv register number and either operand width, the bytes `assemble_VEX`
+    emits — the two-byte C5 form or the three-byte C4 form, whichever it chooses — are read by the reference decoder as a prefix with
+    R̄ X̄ B̄ the inverted extension bits, that vvvv (inverted), and the L, pp, opcode map and W the table row asks for -/
+theorem vex_prefix_fields :
+    (vexSlots.all fun v => rexVals.all fun rex => (List.range 16).all fun vv => [false, true].all fun w0 =>
+      vexFields (assembleVEX (vexRec rex vv w0) v ++ [0x58]) == some (vexWant v rex vv w0)) = true := by decide +kernel
+
+example : vexSlots.length = 15 ∧ vexSlots.contains 1345 = true := by decide +kernel
+/-- the short form is chosen when it can be: no X, no B, map 0F, W irrelevant -/
+example : assembleVEX (vexRec 0x44 3 false) 587 = [0xC5, 0x65] ∧ assembleVEX (vexRec 0x41 3 false) 587 = [0xC4, 0xC1, 0x65] := by decide +kernel
+
+
+/-- the vector register files: REX.R / REX.B (which `assemble_VEX` inverts into the VEX prefix, see `C04.vex_prefix_fields`)
+    and the ModRM byte name the two registers; no REX at all for mm0-7 and for two low registers -/
+def vecFieldsOk (c : Cls) (m r : Reg) : Bool :=
+  let s0 : Instr := { modDisp := c_MOD24 }
+  let (s1, rex) := getRexPrefix s0 (AL.Properties.C01.regOpd m) (AL.Properties.C01.regOpd r)
+  match getRegFinish s1 (AL.Properties.C01.regOpd m) (AL.Properties.C01.regOpd r).reg with
+  | .error _ => false
+  | .ok s2 =>
+    let modrm := s2.hex.reg
+    (rex == 0 || (0x40 ≤ rex && rex ≤ 0x4f)) && modrm / 64 == 3 && modrm < 256 &&
+    mkReg c 0 (rex != 0) (modrm % 8 + 8 * (rex % 2)) == m &&
+    mkReg c 0 (rex != 0) ((modrm / 8) % 8 + 8 * ((rex / 4) % 2)) == r &&
+    (rex / 2) % 2 == 0 && ((m.num < 8 && r.num < 8) → rex == 0)
+
+/-- **REX.R / REX.B and ModRM of every vector register pair** (kernel evaluation): mm0-7, xmm0-15, ymm0-15 -/
+theorem vecpair_fields :
+    ([Cls.mm, .xmm, .ymm].all fun c => (regsOf c 0).all fun m => (regsOf c 0).all fun r => vecFieldsOk c m r) = true := by decide +kernel
+
 
 end AL.Properties.C04
